@@ -299,7 +299,7 @@ class Textgrid:
 
         maxTimestamp = self.maxTimestamp
         if doShrink is True:
-            maxTimestamp -= diff
+            maxTimestamp = start if maxTimestamp == end else maxTimestamp - diff
 
         newTG = Textgrid(self.minTimestamp, self.maxTimestamp)
         for tier in self.tiers:
